@@ -75,7 +75,10 @@ def op_case(cid, clause, shape, vals):
         res = ct.MapType({ct.StringType("a"): ct.MapType({ct.StringType("b"): cel})})
     elif shape[0] == "tags":
         tag = lambda k, val: ct.MapType({ct.StringType("Key"): ct.StringType(k), ct.StringType("Value"): val})
-        res = ct.MapType({ct.StringType("Tags"): ct.ListType([tag("Other", ct.StringType("zz")), tag("Name", cel), tag("Name", ct.StringType("second"))])})
+        name = clause["key"][4:]
+        res = ct.MapType({ct.StringType("Tags"): ct.ListType([tag("Other", ct.StringType("zz")), tag(name.rpartition(":")[2] + "x", ct.StringType("ab")), tag(name, cel),
+                                                              tag(name, ct.StringType("second"))] + ([tag(name.rpartition(":")[2], ct.StringType("ab")), tag(name.partition(":")[0], ct.StringType("ab"))]
+                                                                                                    if ":" in name else []))})
     else:
         res = ct.MapType({ct.StringType("k"): cel})
     try:
